@@ -14,7 +14,7 @@ PROP = dict(
                "C21_superseded_never_deletes_live (hook level), C21_refuted (PUBACK/PUBREC to the publisher precedes the "
                "subscribers' in-flight writes).  Each run checks per crash point: restored state = abstract state of the "
                "first k recorded writes = restart model; no SUBACK/UNSUBACK/PUBACK before the write it acknowledges "
-               "(except the listed finding); no storage event touching a session on behalf of a superseded client object.",
+               "(except the listed finding); no storage event touching a session on behalf of a superseded client object; no leftover of a session at a Clean Start; at the last boundary the memory of the broker equals the state of the writes (nothing accepted for a session exists in memory only).",
     level_note="Trusted as C20, plus the write-limiting hook (it cuts inside a hook call by forwarding an equivalent call "
                "for the writes still allowed; the engine cross-checks its write count against the model).  The process "
                "death is simulated at the granularity of one Set/Delete; the engines' own atomicity and durability of a "
@@ -23,7 +23,7 @@ PROP = dict(
     engines=[dict(hx="crash", timeout=2400)],
     theorems=["C21_refuted", "C21_crash_modulo_findings", "C21_untouched_state_kept", "C21_superseded_never_deletes_live", "C21_clean_start_nothing_restored"],
     model_files="coq/Storage/StoreHooks.v coq/Storage/Restart.v coq/Storage/Crash.v coq/Storage/RestartEngine.v",
-    rule="every k in 0..(number of writes) of: the 11 directed histories of C20 (incl. Clean Start 1 over a live and over an offline session with unacknowledged QoS 1/2 messages) (bolt+redis; thorough all four) and random "
+    rule="every k in 0..(number of writes) of: the 16 directed histories of C20 (incl. Clean Start 1 over a live and over an offline session with unacknowledged QoS 1/2 messages) (bolt+redis; thorough all four) and random "
          "histories of 5..20 client operations (quick 10, alternating bolt/redis; thorough 100 on pebble+bolt+redis, "
          "every 10th also badger).  non-trivial = k > 2; distinct = distinct case lines",
     exhaustive=False,
